@@ -79,11 +79,11 @@ class TLCResult:
 class Check:
     def __init__(self, pid, tier, seed, keep=False):
         self.pid, self.tier, self.seed = pid, tier, int(seed)
-        self.work = os.path.join(VERIF, "work", pid)
+        # VERIF_OUT (development aid): scratch, evidence and replay files of runs against another checkout go elsewhere
+        self.outdir = os.environ.get("VERIF_OUT", VERIF)
+        self.work = os.path.join(self.outdir, "work", pid)
         shutil.rmtree(self.work, ignore_errors=True)
         os.makedirs(self.work)
-        # VERIF_OUT (development aid): evidence and replay files of runs against another checkout go elsewhere
-        self.outdir = os.environ.get("VERIF_OUT", VERIF)
         os.makedirs(os.path.join(self.outdir, "replays", pid), exist_ok=True)
         os.makedirs(os.path.join(self.outdir, "evidence"), exist_ok=True)
         self.t0 = time.time()
